@@ -18,7 +18,7 @@ CHECKS = [
      "text": "Generated box lengths, dimensions and entries k*L+f (tiny negatives, exact multiples, values next to L and L/2) "
              "are checked against Fraction arithmetic: result strictly in [0,L), congruent within one ulp(L), idempotent; "
              "separations congruent to the difference with |s|<=L/2; cubic and cuboid bit-identical; next_image adds exactly L.",
-     "note": "Trusted: Fraction, IEEE doubles. Box lengths in [1e-3,1e3], |k|<=1000; separation_vector fed positions in [0,L)."},
+     "note": "Trusted: Fraction, IEEE doubles. Box lengths in [1e-3,1e3], |k|<=1000; separation_vector fed positions in [0,L) in three cases of four and unfolded positions k*L+f (either or both operands, tolerance 4 ulp of the largest operand) in the fourth."},
     {"id": "C16", "engine": "hypothesis-runner", "design_ref": "DESIGN.md §3 C16",
      "technique": "property-based testing (Hypothesis) against integer index arithmetic and float adjacency (nextafter); exhaustive cell pairs on small grids",
      "text": "Generated grids (1-3 dims, cubic/cuboid, 1..12/49/64 cells per side, 0-2 layers, periodic and plain) with positions on "
@@ -27,7 +27,7 @@ CHECKS = [
      "note": "Trusted: the index-arithmetic model in vlib/props/C16.py. Grids limited to 2500 cells per case."},
     {"id": "C05", "engine": "hypothesis-runner", "design_ref": "DESIGN.md §3 C05",
      "technique": "property-based testing (Hypothesis) with scripted randomness: exact integration of the selection step function (thresholds by bisection) against the flow-balance identity",
-     "text": "Generated zero-sum derivative tables (2-12 entries, zeros, near-cancelling values, 12 decades, any insertion order) x 3 "
+     "text": "Generated zero-sum derivative tables (2-12 entries, zeros, near-cancelling values, 12 decades, overall scale 2^-200..2^200 in half of the cases, any insertion order) x 3 "
              "schemes x every positive entry as active unit: the selection as a function of the uniform draw is located exactly "
              "and integrated; inflow of each unit must equal the magnitude of its negative derivative, non-negative units are "
              "never returned (end points included), fresh and reused instances agree. Handler part: the real two-composite-object "
@@ -69,7 +69,7 @@ CHECKS = [
              "minimum-image cube (72^3 quick / 240^3 thorough x 3 directions x 2 signs), Hypothesis draws steered by target() with a "
              "dedicated class at the edge mid-points where the supremum 0.99990 sits, and local refinement; covariance under box "
              "length, axis permutation and charge magnitude is asserted. Largest ratio found is reported in evidence. Acceptance: real "
-             "TwoLeafUnitBoundingPotential and TwoCompositeObjectSummedBoundingPotential handlers under scripted draws - the break "
+             "TwoLeafUnitBoundingPotential (fresh, reused for another pair, deep-copied or restored by dill) and TwoCompositeObjectSummedBoundingPotential handlers under scripted draws - the break "
              "point of the hand-over in the confirmation draw equals max(0,q_true)/q_bound recomputed by independent oracles at the "
              "time-sliced separation, nothing changes above it. The cell-bounding handler (stub estimator) and the root-mode "
              "summed-bound handler are checked the same way, including the number of independent exponential draws (one per "
@@ -91,8 +91,8 @@ CHECKS = [
      "text": 'Before every get_succeeding_event the pending (pushed, not trashed) in-state identifier tuples per tagger are compared, as multisets of ordered tuples, with what the tagger yields from scratch for the current active state; counts for the non-interaction taggers; TagActivatorError and exceeding the owned handlers are violations. The from-scratch generation uses the generators the taggers had before anything was deactivated and an activation model read from the configuration text. Sub-check activator_model (no run): generated wirings with arbitrary create/trash/activate/deactivate lists on the real TagActivator/Tagger classes against a model of the documented pool semantics (trashable events == pending events of the trashed tags, handlers started == in-states generated by activated taggers of the create list, TagActivatorError exactly on pool exhaustion).',
      "note": "Trusted: vlib/monitor.py (harness-side recomputation of trajectories with the code's own Time subtraction), instance-attribute wrappers of vlib/engine.py, private reads Mediator._state_handler/_scheduler/_activator/_input_output_handler and Activator._taggers/_internal_states. Since the repair of the nearby-cells ordering (fix 55b0c76) runs with cell systems are a pure function of the drawn case; should Hypothesis still report a non-reproducible failure the first observed violation is reported with a note. Generated configurations edit parameters of shipped files only; hard_disk_dipoles(.ini|_cells.ini) need MDAnalysis and are not runnable here."},
     {"id": "C11", "engine": "history-monitor", "design_ref": "DESIGN.md §3 C11, §2.2",
-     "technique": "property-based testing over generated run histories (Hypothesis draws configuration, seed, budget) with a per-event invariant monitor on the real mediator loop",
-     "text": 'On all cell configurations (shipped + edited grids/caps/N, clustered initial configurations with several units per cell, generated families G5 in a non-cubic box and G6 with downward wall crossings): right after every activator update and before every get the occupancy view (occupants per cell, surplus, active cell) is compared with the true positions; at every commit the active unit advanced to the event time must lie in its recorded cell, after a cell-boundary event in the neighbour in the direction of motion. Sub-check occupancy_legs (no run): SingleActiveCellOccupancy driven leg by leg on generated populations (crowded cells, caps, signed/zero charges behind the filter, point masses or whole objects in cells): moves inside a cell, wall crossings up and down incl. the periodic wall, hand-over of the activity to occupant/surplus/distant/filtered-out units; occupant lists, per-cell surplus lists and the active record are compared with the positions after every update().',
+     "technique": "property-based testing over generated run histories (Hypothesis draws configuration, seed, budget) with a per-event invariant monitor on the real mediator loop; Hypothesis-generated leg sequences and handler in-states against a position/extent oracle",
+     "text": 'On all cell configurations (shipped + edited grids/caps/N, clustered initial configurations with several units per cell, generated families G5 in a non-cubic box and G6 with downward wall crossings): right after every activator update and before every get the occupancy view (occupants per cell, surplus, active cell) is compared with the true positions; at every commit the active unit advanced to the event time must lie in its recorded cell, after a cell-boundary event in the neighbour in the direction of motion. Sub-check occupancy_legs (no run): SingleActiveCellOccupancy driven leg by leg on generated populations (crowded cells, caps, signed/zero charges behind the filter, point masses or whole objects in cells): moves inside a cell, wall crossings up and down incl. the periodic wall, hand-over of the activity to occupant/surplus/distant/filtered-out units; occupant lists, per-cell surplus lists and the active record are compared with the positions after every update(). Sub-check boundary_handler (no run): CellBoundaryEventHandler on drawn in-states (cubic/cuboid boxes, 2-7 cells per side along the axes of motion, starts in the bulk, on a wall, one ulp beside a wall, at the top of the box; 1..dim velocity components of either sign over six decades; point mass, point mass of a composite, whole object): candidate time = first wall of the own cell reached (neither earlier nor later), out-state exactly on the facing limit of the neighbour cell found by identifier arithmetic, position_to_cell changes on the crossing axis only, all units time-sliced with unchanged velocity.',
      "note": "Trusted: vlib/monitor.py (harness-side recomputation of trajectories with the code's own Time subtraction), instance-attribute wrappers of vlib/engine.py, private reads Mediator._state_handler/_scheduler/_activator/_input_output_handler and Activator._taggers/_internal_states. Since the repair of the nearby-cells ordering (fix 55b0c76) runs with cell systems are a pure function of the drawn case; should Hypothesis still report a non-reproducible failure the first observed violation is reported with a note. Generated configurations edit parameters of shipped files only; hard_disk_dipoles(.ini|_cells.ini) need MDAnalysis and are not runnable here."},
     {"id": "C12", "engine": "history-monitor", "design_ref": "DESIGN.md §3 C12, §2.2",
      "technique": "property-based testing over generated run histories (Hypothesis draws configuration, seed, budget) with a per-event invariant monitor on the real mediator loop",
